@@ -26,7 +26,7 @@ MANIFEST = dict(
          "of the module it is passed to) it is a native float64 ndarray with at least one dimension on every path (abstract interpretation over a "
          "finite domain of array kinds; a dtype test counts only if it implies native byte order), the arrays the C++ Matcher keeps are private copies, "
          "an array that the C++ side walks through its bare data pointer instead of its strides is a new contiguous array; sizes are checked; the compiled "
-         "Matcher the one-shot method constructs receives (own depth, ra2, dec2) and the value returned is what the compiled match gives for "
+         "Matcher the one-shot method constructs - every one of them - receives (own depth, ra2, dec2) and each value returned is what the compiled match gives for "
          "(ra1, dec1, radius, maxmatch, checked file name), whichever python entry points of the Matcher class are used on the way; "
          "(7) the separation is identically 0 for identical points, in degrees, equals the great-circle formula and is computed "
          "by a small-angle-stable form (not the arc cosine of a cosine: its error 1.1e-16/theta exceeds the property's 1e-9 "
@@ -34,7 +34,9 @@ MANIFEST = dict(
          "no condition computed from the points' coordinates other than the separation test (and the latitude bound it implies) decides "
          "whether a candidate is recorded; per-point radius and cap are not used before their assignment of the same iteration; every "
          "loop that hands pairs to the file or the result vectors is bounded by the kept count; in the vendored cover code a two-vertex "
-         "helper applied to a triangle's vertices is applied to all three edges.",
+         "helper applied to a triangle's vertices is applied to all three edges; a method that handles a stored node (a position in the node array) hands only the "
+         "node's HTM id to the result lists, directly or through the id argument of the methods that pass it on, and searches all four stored children whatever a "
+         "sibling answered (an early exit is accepted - as undecided - only if the answer that triggers it is produced solely under a failed edge-crossing test).",
     note="Not decided: none missing / each once for the vendored HTM library (SpatialDomain/SpatialIndex triangle cover), "
          "depth independence, rounding of cos(rad) in the cover for tiny radii. Trusted: clang AST, SWIG naming convention "
          "(proxy method arguments in C++ order), std::sort, LP64.",
@@ -2457,7 +2459,7 @@ def id_sink_positions(fs):
         cn = callee_name(x)
         if x.get("kind") == "CXXMemberCallExpr" and cn == "append" and x["inner"][0].get("inner"):
             rt = (strip(x["inner"][0]["inner"][0]).get("type") or {}).get("qualType", "")
-            return {0} if "ValVec<uint64>" in rt.replace(" ", "").replace("unsignedlong", "uint64") or "ValVec<uint64>" in rt else set()
+            return {0} if "ValVec<uint64>" in rt.replace(" ", "") else set()
         if cn == "leafNumberById":
             return {0}
         return sinks.get(cn, set())
